@@ -100,6 +100,17 @@ theorem checked_tree_reads_back (t : Tree) (a : ATree) (ha : annot t = some a) (
   have := parse_format a (wfB_sound a hw) fuel hd
   rwa [annot_erase t a ha] at this
 
+/-- finding `toplevel-singlepart-trailing-crlf`, as a theorem: a message whose body is a single part ends in the part's
+    content followed by CRLF with no delimiter to absorb it, so a MIME reader shows the content with one CRLF added
+    (inside a multipart the same CRLF belongs to the next delimiter and the content is exact: `C11.parse_format`) -/
+theorem toplevel_leaf_gets_crlf (fs : List (Bytes × Bytes)) (b : Bytes) (hw : FieldsOk fs)
+    (hct : (contentTypeOf fs).bind boundaryOf = none) :
+    parseEntity 1 (format (erase (.leaf fs b))) = some (.leaf fs (b ++ CRLF)) := by
+  have e : format (erase (.leaf fs b)) = formatFields fs ++ [13, 10] ++ (b ++ CRLF) := by
+    simp [erase, format, CRLF, List.append_assoc]
+  rw [e, parseEntity, split_section fs _ hw]
+  simp only [hct]
+
 /-- non-vacuity: a two-level tree with a quoted boundary containing a space, a folded Content-Type, and a leaf whose
     content has `--` lines satisfies `WF` -/
 example :
